@@ -82,6 +82,9 @@ def cases(draw, closed_only, allow_verify):
     case["named"] = draw(st.booleans())
     # kind of the injected upload failure (OSError subclass is chosen by errno)
     case["fail_errno"] = draw(st.sampled_from(["EIO", "EIO", "ENOENT", "EACCES", "ENOSPC"]))
+    # a failing upload leaves the first half of the object, unprotected, under its final name (a destination
+    # filesystem without atomic placement dying half-way; dvc_objects hands put_file the final path)
+    case["fail_partial"] = draw(st.sampled_from([False, False, False, True]))
     # placement by hard link instead of copy (cache type hardlink); applies to hashfile.transfer() only
     case["hardlink"] = draw(st.sampled_from([False, False, True]))
     if allow_verify and draw(st.integers(0, 3)) == 0:
@@ -96,7 +99,7 @@ class Obs:
     """Everything observed while executing one transfer case."""
 
 
-def execute(case, ctx, d, monitor_closure=True):  # noqa: C901, PLR0912, PLR0915
+def execute(case, ctx, d, monitor_closure=True, partial_on_generic=False):  # noqa: C901, PLR0912, PLR0915
     from dvc_objects.fs.local import LocalFileSystem
 
     from dvc_data.hashfile.build import build
@@ -409,8 +412,12 @@ def execute(case, ctx, d, monitor_closure=True):  # noqa: C901, PLR0912, PLR0915
     o.raised = None
     o.push_counts = []
     o.via_push = via_push
+    # a store class that trusts names keeps a half-written object for good (nothing in dvc-data claims to heal
+    # that); only the truthfulness of the report (C11) is judged there, the retry/closure clauses (C04) are not
+    partial = bool(case.get("fail_partial")) and (case["dst_kind"] == "local" or partial_on_generic)
+    o.partial = partial
     inj = Injector([dst_root], fail=fail, abort_at=case["abort_at"], monitor=monitor,
-                   err=case.get("fail_errno") or "EIO")
+                   err=case.get("fail_errno") or "EIO", partial=partial)
     with inj:
         try:
             o.result = do_transfer(inj)
@@ -466,6 +473,8 @@ def classes_of(case, o):
         cl.append("source-on->=2-filesystem-objects")
     if o.inj.faulted and case.get("fail_errno", "EIO") != "EIO":
         cl.append(f"fault-errno={case['fail_errno']}")
+    if o.inj.faulted and o.partial:
+        cl.append("failed-upload-left-half-the-object-under-its-name")
     if o.inj.faulted:
         cl.append("fault-hit")
     if o.inj.aborted:
